@@ -88,6 +88,13 @@ partial def getFn? (n : Nat) (j : Json) : Option (Fn Float n) := do
     let m ← fNat? j "m"
     some (.sqL2SqAbsLoss (← fFloat? j "s") (← getMat? (← field? j "A") m n) (← getRV? (← field? j "y") m)
       (← getRV? (← field? j "w") m))
+  | "proxavg" =>
+    -- ProximalAverage(func_list, alpha_list): weights normalised as in `__init__`, value `sum(alpha_i f_i(x))`
+    let fs ← (← fList? j "fs").mapM (getFn? n)
+    let al : Option (List Float) := (fFloats? j "alphas")
+    if al.any (·.length != fs.length) then none else
+    let w := proxAvgWeights fs.length (fun k => k.toFloat) al
+    some (proxAvgFn (w.zip fs) .zero)
   | "sqL2AbsLoss" =>
     let m ← fNat? j "m"
     some (.sqL2AbsLoss (← fFloat? j "s") (← getMat? (← field? j "A") m n) (← getRV? (← field? j "y") m)
@@ -108,9 +115,14 @@ partial def getFn? (n : Nat) (j : Json) : Option (Fn Float n) := do
 
 def basis (n : Nat) (j : Fin n) : CV n := fun i => if i = j then ⟨1, 0⟩ else ⟨0, 0⟩
 
-/-- executable stand-in for `jax.linear_transpose` of a linear `f`: `(T f y)ⱼ = Σᵢ (f eⱼ)ᵢ yᵢ` -/
+/-- executable stand-in for `jax.linear_transpose` of a **real-linear** `f` (ℂ-linear maps included):
+    the `G` with `Re Σ (G y)ⱼ dⱼ = Re Σ yᵢ (f d)ᵢ` for all `d`, read off on the real basis
+    `eⱼ`, `i·eⱼ`:  `Re (G y)ⱼ = Re Σ yᵢ f(eⱼ)ᵢ`,  `Im (G y)ⱼ = −Re Σ yᵢ f(i eⱼ)ᵢ` -/
 def transposeFn {n m : Nat} (f : CV n → CV m) : CV m → CV n :=
-  fun y j => Vec.sum (fun i => f (basis n j) i * y i)
+  fun y j =>
+    let a := Vec.sum (fun i => y i * f (basis n j) i)
+    let b := Vec.sum (fun i => y i * f (fun l => if l = j then ⟨0, 1⟩ else ⟨0, 0⟩) i)
+    ⟨a.re, -b.re⟩
 
 def jLabels (l : List Nat) : Json := jNs l
 
@@ -206,7 +218,9 @@ def handler : Handler := fun op j =>
     let y ← getCV? (← field? j "y") m
     let cp ← fBool? j "cprimal"
     let co ← fBool? j "cout"
-    let f : CV n → CV m := mulVec M
+    -- `real_out`: the function is `x ↦ Re(M x)` (complex → real, real-linear only)
+    let realOut := (fBool? j "real_out").getD false
+    let f : CV n → CV m := if realOut then (fun x => realPart (mulVec M x)) else mulVec M
     some (ok (jCV (linearAdjoint transposeFn cp co f y)))
   | "args" => do
     let idx ← fNat? j "index"
